@@ -414,7 +414,18 @@ impl Ctx {
             .and_then(|s| s.parse().ok())
             .unwrap_or(1.0);
         let base = if self.quick() { quick } else { thorough };
-        ((base as f64) * scale).ceil() as u64
+        // the quick tier is fixed work sized to take a few seconds per property on 16 cores
+        let tier_scale = if self.quick() {
+            match self.property.as_str() {
+                "C01" => 3.0,
+                "C09" | "C17" => 2.0,
+                "C03" | "C10" | "C11" | "C12" | "C14" | "C16" | "C19" => 10.0,
+                _ => 5.0,
+            }
+        } else {
+            1.0
+        };
+        ((base as f64) * scale * tier_scale).ceil() as u64
     }
 
     pub fn note(&self, s: impl Into<String>) {
